@@ -238,6 +238,10 @@ class Gen:
             kd = view.known_data.get(s)
             if kd and rng.random() < 0.85:
                 d = rng.choice(sorted(kd, key=repr))
+                if rng.random() < 0.15:
+                    # a near miss of a datapoint the agent knows at the source: one of the four fields differs
+                    d = rng.choice([Data(d.owner + "x", d.id, d.size, d.type), Data(d.owner, d.id + "x", d.size, d.type),
+                                    Data(d.owner, d.id, d.size + 1, d.type), Data(d.owner, d.id, d.size + 1, d.type), Data(d.owner, d.id, d.size, d.type + "x")])
             else:
                 alld = sorted({d for v in self.w._data.values() for d in v}, key=repr)
                 d = rng.choice(alld) if alld and rng.random() < 0.7 else Data("nobody", "nothing", rng.choice([0, 7]), rng.choice(["", "t"]))
